@@ -8,6 +8,19 @@ HERE = os.path.dirname(os.path.dirname(os.path.abspath(__file__)))
 
 # pid -> (category, technique, level text, level note, design ref)
 CHECKS = {
+    "C10": (
+        "fault_enumeration",
+        "Hypothesis-generated Colang 2 programs with one injected erroneous statement at every enumerated/drawn position + immediately failing activated flows; oracle = deterministic step budget, canary flows, ColangError watcher, C09 invariants, through the real RuntimeV2_x.process_events",
+        "Eight kinds of erroneous statements (bad expression, subscript, undefined reference, invalid regex / comparison pattern in a match, surplus arguments, "
+        "out-of-range priority, wrong action argument type) are injected at every position after the first wait of fixed helper families (enumerated) and at "
+        "drawn positions of generated helpers; activated flows that finish/return/abort/raise before any wait are added. Events are processed through the real "
+        "RuntimeV2_x.process_events; per event a step budget on the interpreter's entry points decides termination, two canary flows must each react exactly once "
+        "to every canary event (same and later events), a reached fault must be visible as ColangError to a watcher flow, no exception may escape and the C09 "
+        "structural invariants must still hold.",
+        "Step budget max(2000, 200 x source lines) per event stands in for 'a bound that depends only on the program size'; faults before a flow's first wait and "
+        "failing activations legitimately fail the starter, so only termination is asserted for them.",
+        "DESIGN.md 4/C10",
+    ),
     "C09": (
         "exploration",
         "Hypothesis: grammar-based Colang 2 program generator x event histories (incl. co-simulated 'hit' events and action life-cycle events) x tie-breaks; invariant checking of the interpreter State against a from-scratch scan after every event",
